@@ -35,8 +35,9 @@ def nlStmts (two : Bool) (keys : List (Expr × Expr)) : Option (List Stmt × Exp
     some (Gen.BCountSql.nlSelf3Stmts a c e b d f, Gen.BCountSql.nlSelf3BlocksTopKey, Gen.BCountSql.nlSelf3BlocksTopDesc)
   | two, keys => some (BCountSql.nLargestStmts two keys, BCountSql.topKey keys.length, true)
 
-/-- `{"op":"bcount_sql","two":bool,"L":[[v,…],…],"R":[[v,…],…],"keys":[[colL,colR],…],"n":k}`: the regenerated counting
-statements of blocking_analysis.py under `Rel.eval`.  Self-join set-up: `L` is `__splink__df_concat` (`R` ignored);
+/-- `{"op":"bcount_sql","two":bool,"L":[[v,…],…],"R":[[v,…],…],"keys":[[colL,colR],…],"n":k,"concat":[[v,…],…]|null,"sd":col|null}`:
+the regenerated counting statements of blocking_analysis.py under `Rel.eval`.  With `concat` (the rows of `__splink__df_concat` of the
+cumulative function) also the regenerated `_row_counts_per_input_table` statement: `sd` = the source dataset column, `null` = dedupe_only.  Self-join set-up: `L` is `__splink__df_concat` (`R` ignored);
 two-table set-up: `L` / `R` are `input_0` / `input_1`.  Key expressions are column references of the given rows. -/
 def handleBCountSql (j : Json) : Except String Json := do
   let two ← getBool j "two"
@@ -55,6 +56,15 @@ def handleBCountSql (j : Json) : Except String Json := do
     | some (stmts, key, desc) =>
       let rows := (runStmts db stmts) BCountSql.nameBlocks
       Json.mkObj [("rows", enc rows), ("first", enc (orderLimit key desc n rows))]
-  pure <| Json.mkObj [("total", Json.num (BCountSql.totalOf (out BCountSql.nameTotal))),
+  let rc ← match j.getObjValD "concat" with
+    | Json.null => pure Json.null
+    | cj => do
+      let C ← rowsOfJson cj
+      let sd ← optOf (fun v => v.getNat?) (j.getObjValD "sd")
+      let rows := match sd with
+        | none => BCountSql.rowCounts true (Expr.col 0) (Db.set db0 BCountSql.nameConcat C)
+        | some c => BCountSql.rowCounts false (Expr.col c) (Db.set db0 BCountSql.nameConcat C)
+      pure (Json.arr ((BCountSql.countsOf rows).map fun (n : Nat) => Json.num n).toArray)
+  pure <| Json.mkObj [("rowcounts", rc), ("total", Json.num (BCountSql.totalOf (out BCountSql.nameTotal))),
     ("total_rows", enc (out BCountSql.nameTotal)), ("blocks", enc (out BCountSql.nameBlocks)), ("top", top)]
 end SplinkVerif.Drv
